@@ -588,7 +588,9 @@ class StmtMixin:
         if inv is None:
             raise CheckerError('loop without invariant: %s loop[%s] (%s)' % (fr.qual, idx, self.loop_sig(s)))
         if inv.sig != self.loop_sig(s):
-            raise CheckerError('stale loop anchor %s loop[%s]: %r != %r' % (fr.qual, idx, inv.sig, self.loop_sig(s)))
+            # the loop head changed: the invariant is still applied by ordinal (a failing VC is then
+            # reported against the property); the mismatch is recorded in the evidence
+            self.stats['dropped'].add('loop signature changed: %s loop[%s]: %r != %r' % (fr.qual, idx, inv.sig, self.loop_sig(s)))
         return self.loop_vc(s, st, fr, idx, inv, seqv)
 
     def unroll(self, s, st, fr, items):
@@ -747,7 +749,7 @@ class StmtMixin:
         if inv is None:
             raise CheckerError('loop without invariant: %s loop[%s] (%s)' % (fr.qual, idx, self.loop_sig(s)))
         if inv.sig != self.loop_sig(s):
-            raise CheckerError('stale loop anchor %s loop[%s]: %r != %r' % (fr.qual, idx, inv.sig, self.loop_sig(s)))
+            self.stats['dropped'].add('loop signature changed: %s loop[%s]: %r != %r' % (fr.qual, idx, inv.sig, self.loop_sig(s)))
         outs = []
         entry = st.copy()
         self.check_inv(st, fr, inv, idx, 'entry', entry, {})
